@@ -235,3 +235,19 @@ claim("C18",
       "content equality before/after on real files, behaviour of an interruption inside one HDF5 call.",
       "returned-list / scheduling decisions, must-precede and read-to-write data flow on all abstract paths (raw h5py "
       "mode of the path-sensitive abstract interpreter); who-may-write over the resolved call graph", "DESIGN.md#c18")
+
+claim("C08",
+      "Static decision: the complete decision table of the per-dimension slice computation (_calc_data_slices with the "
+      "unit scaling helper inlined) is extracted from the source and evaluated on 720 enumerated scenarios (dimension "
+      "kind x dimension unit x tag unit x position present/absent x extent positive/zero/negative/missing/shorter x "
+      "both stop rules x answer/no answer of the dimension): what is asked of the dimension must be start = position * "
+      "factor, stop = start + extent * factor with the requested stop rule iff the extent is positive (else inclusive at "
+      "the exact position), an answer (a, b) must become slice(a, b + 1), no answer no data, a dimension beyond the "
+      "position the whole axis, unconvertible unit combinations a refusal; multi-tags take position and extent rows with "
+      "the same index and pass the stop rule on; feature data for every LinkType member (tagged: region under a bounds "
+      "refusal; indexed on a multi-tag: entry [i : i+1], rest whole; untagged: whole); the four entry points build "
+      "their views from the referenced array and the computed slices after the bounds logic; the bounds test table; and "
+      "-- shared with C07.R1/R3 and C09.R1 -- the dimension answers by order exactly and the unit factor is the SI "
+      "ratio. NOT decided: the numeric selection on real data beyond these tables (floating point, h5py reads).",
+      "decision-table extraction by path-sensitive abstract interpretation + evaluation of the extracted guards and "
+      "result terms on enumerated scenarios; argument provenance; enum exhaustiveness", "DESIGN.md#c08")
